@@ -10,7 +10,7 @@ import json
 from harness import core
 from harness.core import s2n
 
-GEN = ['GenLex', 'GenProfRe']
+GEN = ['GenLex', 'GenProfRe', 'GenValid']
 
 MANIFEST = dict(
     text='Machine-checked (Coq, closed under the global context) over ALL compiled validation patterns of a fresh registry, regenerated '
@@ -224,6 +224,83 @@ def run(ctx):
         if not (r.style.valid == r.valid == s1.valid == want) or apart.valid != want:
             ctx.violation('conjunction', {'text': text}, 'sheet.valid=%r rule.valid=%r style.valid=%r declarations %r, one rule per declaration: sheet.valid=%r' % (
                 s1.valid, r.valid, r.style.valid, [p.valid for p in ps], apart.valid), KNOWN_PRED)
+    # ... wherever the declarations sit: @media (nested), @page, margin boxes
+    def all_props(rules):
+        for r_ in rules:
+            st_ = getattr(r_, 'style', None)
+            if st_ is not None:
+                yield from st_.getProperties(all=True)
+            if r_.type in (r_.MEDIA_RULE, r_.PAGE_RULE):
+                yield from all_props(r_.cssRules)
+    for _ in range(80 if quick else 2000):
+        ds = []
+        for _k in range(rng.randrange(1, 4)):
+            n_, v_, _e = rng.choice([t for t in good_bad if t[2] or rng.random() < 0.3])
+            ds.append('%s:%s' % (n_, v_))
+        d1, d2 = ';'.join(ds[:1]), ';'.join(ds[1:]) or 'color:red'
+        text = rng.choice(['@media tv{a{%s} b{%s}}', '@media tv{@media print{a{%s}} b{%s}}', '@page{%s;@top-left{%s}}', '@page :left{%s} c{%s}',
+                           'a{%s} @media print{b{%s}}', '@font-face{font-family:x;src:url(y)} @media tv{a{%s;%s}}']) % (d1, d2)
+        ctx.case(('conj-nested', text))
+        s1 = cssutils.parseString(text)
+        props = list(all_props(s1.cssRules))
+        want = all(p.valid for p in props)
+        if props and s1.valid != want:
+            ctx.violation('conjunction-sheet', {'text': text}, 'sheet.valid=%r, declarations %r' % (s1.valid, [(p.name, p.valid) for p in props]), KNOWN_PRED)
+        for r in s1.cssRules:
+            if r.type in (r.MEDIA_RULE, r.PAGE_RULE):
+                ps = list(all_props([r]))
+                if getattr(r, 'valid', None) != all(p.valid for p in ps):
+                    ctx.violation('conjunction', {'text': text}, 'rule %s .valid=%r, declarations %r' % (r.cssText[:40], getattr(r, 'valid', None), [(p.name, p.valid) for p in ps]), KNOWN_PRED)
+    # ---- correspondence of Model/ValidAgg.v (entry 131): the tree of verdicts of a parsed sheet, flattened
+    def enc_decls(st_):
+        ps_ = st_.getProperties(all=True)
+        eff_ = {id(p_) for p_ in st_.getProperties()}
+        out_ = [len(ps_)]
+        for p_ in ps_:
+            out_ += [1 if p_.valid else 0, 1 if id(p_) in eff_ else 0, {'font-family': 1, 'src': 2}.get(p_.name, 0)]
+        return out_
+
+    def enc_rules(rules):
+        out_ = [len(rules)]
+        for r_ in rules:
+            if r_.type == r_.STYLE_RULE:
+                out_ += [0] + enc_decls(r_.style)
+            elif r_.type == r_.MARGIN_RULE:
+                out_ += [1] + enc_decls(r_.style)
+            elif r_.type == r_.FONT_FACE_RULE:
+                out_ += [2] + enc_decls(r_.style)
+            elif r_.type == r_.MEDIA_RULE:
+                out_ += [3] + enc_rules(list(r_.cssRules))
+            elif r_.type == r_.PAGE_RULE:
+                out_ += [4] + enc_decls(r_.style) + enc_rules(list(r_.cssRules))
+            else:
+                out_ += [5]
+        return out_
+    agg_cases, agg_wants, agg_texts = [], [], []
+    for _ in range(150 if quick else 4000):
+        parts = []
+        for _k in range(rng.randrange(1, 5)):
+            ds = ';'.join('%s:%s' % rng.choice(good_bad)[:2] for _j in range(rng.randrange(0, 4)))
+            parts.append(rng.choice(['a{%s}', '@media tv{b{%s}}', '@media tv{@media print{c{%s}} d{left:0}}', '@page{%s;@top-left{color:red}}',
+                                     '@page{margin:0;@top-left{%s}}', '@font-face{font-family:x;src:url(y);%s}', '@font-face{%s}', '/*c*/ e{%s}',
+                                     '@x y; f{%s}', '@media tv{/*c*/ @x y; g{%s}}']) % ds)
+        text = ' '.join(parts)
+        ctx.case(('agg', text))
+        try:
+            sh = cssutils.parseString(text)
+            agg_cases.append([131] + enc_rules(list(sh.cssRules)))
+            agg_wants.append([1 if sh.valid else 0])
+            agg_texts.append(text)
+        except Exception as e:
+            ctx.violation('raises', {'text': text}, '%s: %s' % (type(e).__name__, e), KNOWN_PRED)
+    if ctx.model.available:
+        agree = 0
+        for w, o, t_ in zip(agg_wants, ctx.model.run(agg_cases), agg_texts):
+            if o == w:
+                agree += 1
+            else:
+                ctx.disagree('sheet.valid from the tree of verdicts', {'text': t_}, w, o)
+        ctx.extra['correspondence_aggregation'] = {'sheets': len(agg_cases), 'agree': agree}
     # @font-face context: the verdict of a declaration does not depend on how it came to be in the block
     FF = [('font-weight', 'bolder'), ('font-weight', 'bold'), ('font-style', 'inherit'), ('font-style', 'italic'), ('font-family', 'x, y'),
           ('font-family', 'x'), ('font-stretch', 'wider'), ('font-stretch', 'normal'), ('src', 'url(x.ttf)'), ('src', 'red'),
